@@ -92,6 +92,8 @@ FORMS = {
     'UNPACK': (I + 'generic.py', 'UnpackInstruction'),
     # phase 3
     'CHECK_SIGNATURE': (I + 'crypto.py', 'CheckSignatureInstruction'),
+    # phase 2
+    'EMPTY_BIG_MAP': (I + 'struct.py', 'EmptyBigMapInstruction'),
 }
 
 # module-level helper functions the instruction classes call: digest key -> (file, function)
@@ -138,6 +140,11 @@ METHODS = {
     'SetType.check_constraints': ('michelson/types/set.py', 'SetType', 'check_constraints'),
     'MapType.check_constraints': ('michelson/types/map.py', 'MapType', 'check_constraints'),
     'StringType.from_value': ('michelson/types/core.py', 'StringType', 'from_value'),
+    # phase 2: a big map created in the run (what its lookups do when the context holds nothing for it)
+    **{f'BigMapType.{m}': ('michelson/types/big_map.py', 'BigMapType', m) for m in ('empty', '__iter__', 'attach_context', 'get', 'update')},
+    'MapType.contains': ('michelson/types/map.py', 'MapType', 'contains'),
+    'ExecutionContext.get_tmp_big_map_id': ('context/impl.py', 'ExecutionContext', 'get_tmp_big_map_id'),
+    'ExecutionContext.get_big_map_value': ('context/impl.py', 'ExecutionContext', 'get_big_map_value'),
 }
 
 TYPE_PRIMS = {  # runtime class -> prim, re-read from the class keyword `prim=` below
@@ -1980,6 +1987,101 @@ def execute(cls, stack, stdout, context):
         res = BoolType(True)
     stack.push(res)
     return cls(stack_items_added=1)
+''',
+    # phase 2
+    'EMPTY_BIG_MAP': '''
+@classmethod
+def execute(cls, stack, stdout, context):
+    res = BigMapType.empty(key_type=cls.args[0], val_type=cls.args[1])
+    res.attach_context(context)
+    stack.push(res)
+    return cls(stack_items_added=1)
+''',
+    'BigMapType.empty': '''
+@staticmethod
+def empty(key_type, val_type):
+    cls = BigMapType.create_type(args=[key_type, val_type])
+    return cls(items=[])
+''',
+    'BigMapType.__iter__': '''
+def __iter__(self):
+    yield from iter(self.items)
+    for key in self.removed_keys:
+        yield (key, None)
+''',
+    'BigMapType.attach_context': '''
+def attach_context(self, context, big_map_copy=False):
+    assert self.context is None
+    self.context = context
+    if self.ptr is None:
+        self.ptr = context.get_tmp_big_map_id()
+    else:
+        self.ptr = context.register_big_map(self.ptr, copy=big_map_copy)
+    if context.tzt:
+        context.tzt_big_maps[self.ptr] = self
+''',
+    'BigMapType.get': '''
+def get(self, key, dup=True):
+    self.args[0].assert_type_equal(type(key))
+    if dup:
+        assert self.args[1].is_duplicable()
+    val = next((v for k, v in self if k == key), Undefined)
+    if val is Undefined:
+        assert self.context
+        key_hash = forge_script_expr(key.pack(legacy=True))
+        val_expr = self.context.get_big_map_value(self.ptr, key_hash)
+        if val_expr is None:
+            return None
+        else:
+            return self.args[1].from_micheline_value(val_expr)
+    else:
+        return val
+''',
+    'BigMapType.update': '''
+def update(self, key, val):
+    removed_keys = set(self.removed_keys)
+    prev_val = self.get(key, dup=False)
+    if prev_val is not None:
+        if val is not None:
+            if any((k == key for k, _ in self.items)):
+                items = [(k, v if k != key else val) for k, v in self.items]
+            else:
+                items = sorted(self.items + [(key, val)], key=lambda x: x[0])
+        else:
+            items = [(k, v) for k, v in self.items if k != key]
+            removed_keys.add(key)
+    elif val is not None:
+        items = sorted(self.items + [(key, val)], key=lambda x: x[0])
+        if key in removed_keys:
+            removed_keys.remove(key)
+    else:
+        items = self.items
+    res = type(self)(items=items, ptr=self.ptr, removed_keys=list(removed_keys))
+    res.context = self.context
+    return (prev_val, res)
+''',
+    'MapType.contains': '''
+def contains(self, key):
+    return self.get(key, dup=False) is not None
+''',
+    'ExecutionContext.get_tmp_big_map_id': '''
+def get_tmp_big_map_id(self):
+    self.tmp_big_map_index += 1
+    return -self.tmp_big_map_index
+''',
+    'ExecutionContext.get_big_map_value': '''
+def get_big_map_value(self, ptr, key_hash):
+    if self.tzt or ptr not in self.big_maps:
+        return None
+    ptr, _ = self.big_maps[ptr]
+    if ptr < 0:
+        return None
+    if self.shell is None:
+        raise ValueError(f'Shell is undefined, cannot connect to network')
+    try:
+        return self.shell.blocks[self.block_id].context.big_maps[ptr][key_hash]()
+    except RpcError:
+        return None
 ''',
 }
 
